@@ -1,6 +1,8 @@
 package linkedlistqueue
 
 import (
+	vl "github.com/emirpasic/gods/v2/zzvlib"
+	"encoding/json"
 	"github.com/emirpasic/gods/v2/containers"
 	"github.com/emirpasic/gods/v2/lists/singlylinkedlist"
 	v "github.com/emirpasic/gods/v2/zzvsup"
@@ -26,4 +28,29 @@ func VHIter() {
 func VHSnap() {
 	c, _ := VGQueue()
 	containers.VSnapStep(containers.VSnap{C: c, Mutate: []func(){c.Clear, func() { c.Enqueue(v.Int("m")) }, func() { c.Dequeue() }}})
+}
+
+var _ = vl.Less
+
+func vJSON(c *Queue[int]) containers.VJSON {
+	return containers.VJSON{C: c, ToJSON: c.ToJSON, FromJSON: c.FromJSON,
+		Marshal: func() ([]byte, error) { return json.Marshal(c) },
+		Inv:     func() { v.Assert(c.list != nil, "inv-list"); singlylinkedlist.VInv(c.list) },
+		Step:    func() { n := c.Size(); c.Enqueue(v.Int("sx")); v.Assert(c.Size() == n+1, "C12:enqueue-after-load") },
+		Fresh:   func() containers.VJSON { return vJSON(New[int]()) },
+		Ref: func(ks, xs []int) ([]int, []int) { return nil, xs },
+		Drain: func() []int { var out []int; for { x, ok := c.Dequeue(); if !ok { return out }; out = append(out, x) } },
+	}
+}
+
+// VHJSONRound: ToJSON / json.Marshal / FromJSON round trip from an arbitrary state (C11).
+func VHJSONRound() {
+	c, _ := VGQueue()
+	containers.VJSONRound(vJSON(c))
+}
+
+// VHJSONLoad: FromJSON of an arbitrary document into an arbitrary prior state (C12, C17).
+func VHJSONLoad() {
+	c, _ := VGQueue()
+	containers.VJSONLoad(vJSON(c))
 }
